@@ -50,3 +50,58 @@ Print Assumptions C16_first_is_max.
 Lemma C16_old_code_refuted :
   fold_left (old_add N.leb) [(5,0); (3,1)] [None; None; None] = [Some (3,1); None; None].
 Proof. exact C16_old_refuted. Qed.
+
+(* ---- the visiting order of `Trees::search_best` (model: SearchBest.v) ---- *)
+From LLF Require Import SearchBest SearchBestProofs.
+
+(* `access` is called on the perfect matches in walk order, then on the retained candidates:
+   the best min(cap, #candidates) of the candidates met, in descending (policy, entirely free)
+   order (assuming every call answers Err(Memory); otherwise the calls are a prefix of this). *)
+Theorem C16_search_order :
+  forall (cap : nat) (tree_frames : N) (rate : N -> N -> policy) (trees : list tentry)
+         (start offset len : N),
+    let w := walk (N.of_nat (length trees)) start offset len in
+    exists tried,
+      search_order cap tree_frames rate trees start offset len =
+        walk_direct tree_frames rate trees w ++ map snd tried /\
+      desc_by skey_le tried /\
+      length tried = Nat.min cap (length (walk_cands tree_frames rate trees w)) /\
+      exists dropped,
+        Permutation (walk_cands tree_frames rate trees w) (tried ++ dropped) /\
+        forall d k, In d dropped -> In k tried -> skey_le (fst d) (fst k) = true.
+Proof. exact search_order_spec. Qed.
+Print Assumptions C16_search_order.
+
+(* One search never accesses a tree twice (len <= ntrees), and only trees the walk looked at. *)
+Theorem C16_search_once :
+  forall (cap : nat) (tree_frames : N) (rate : N -> N -> policy) (trees : list tentry)
+         (start offset len : N),
+    let ntrees := N.of_nat (length trees) in
+    0 < ntrees -> len <= ntrees -> start + 2 * ntrees < 2 ^ 64 ->
+    NoDup (search_order cap tree_frames rate trees start offset len) /\
+    incl (search_order cap tree_frames rate trees start offset len) (walk ntrees start offset len).
+Proof.
+  exact (fun cap tf rate trees start offset len Hn Hl Hb =>
+           conj (search_order_NoDup cap tf rate trees start offset len Hn Hl Hb)
+                (search_order_incl cap tf rate trees start offset len)).
+Qed.
+Print Assumptions C16_search_once.
+
+(* The walk looks only at existing trees and at none twice when len <= ntrees ... *)
+Theorem C16_walk_once :
+  forall ntrees start offset len : N,
+    0 < ntrees -> len <= ntrees -> start + 2 * ntrees < 2 ^ 64 ->
+    NoDup (walk ntrees start offset len) /\
+    Forall (fun idx => idx < ntrees) (walk ntrees start offset len).
+Proof.
+  exact (fun n s o l Hn Hl Hb => conj (walk_NoDup n s o l Hn Hl Hb) (walk_in_range n s o l Hn)).
+Qed.
+Print Assumptions C16_walk_once.
+
+(* ... and at every tree exactly once when offset = 0 and len = ntrees. *)
+Theorem C16_walk_all :
+  forall ntrees start : N,
+    0 < ntrees -> start + 2 * ntrees < 2 ^ 64 ->
+    Permutation (walk ntrees start 0 ntrees) (nrange 0 ntrees).
+Proof. exact walk_all. Qed.
+Print Assumptions C16_walk_all.
